@@ -40,6 +40,29 @@ def paths(n, classify, limit=4000):
     if ev is not None:
         if ev[0] == "stop":
             return [[ev[1]]]
+        if ev[0] == "inline":
+            # a call of a local helper that holds events: the helper's paths take the place of the call (after the arguments);
+            # a `return` inside the helper ends the helper, not the caller's path
+            args = [[]]
+            for c_ in hir.children(n):
+                args = seq_product(args, paths(c_, classify, limit))
+            inner = []
+            stack = getattr(classify, "inline_stack", None)
+            if stack is not None:
+                stack.append(ev[2] if len(ev) > 2 else None)
+            try:
+                inner_paths = paths(ev[1], classify, limit)
+            finally:
+                if stack is not None:
+                    stack.pop()
+            for p_ in inner_paths:
+                if p_ and p_[-1][0] == "return":
+                    p_ = p_[:-1]
+                inner.append(p_)
+            res = seq_product(args, inner)
+            if len(res) > limit:
+                raise OverflowError("too many paths")
+            return res
         pre = [ev]
 
     def after(res):
